@@ -1196,7 +1196,12 @@ class World(object):
         if st in ("succeeded",) :
             pass
         # an unreachable-join error must name a join whose barrier really is partially satisfied
-        if st == "failed" and not self.inflight and not self.accepted_rerun:
+        # (only when that error is the sole cause of the failure: a workflow that already failed for
+        # another reason may log such an entry for a join whose last inbound task is still running,
+        # which changes nothing the statement speaks about)
+        if st == "failed" and not self.inflight and not self.accepted_rerun and not L.unhandled and not L.fail_cmd \
+                and not L.runtime_errors and not self.fault_fired and not self.forced_failed and not self.cancel_req \
+                and not self.o.get("data_fault"):
             for e in self.snap["errors"]:
                 if "UnreachableJoinError" in (e.get("message") or "") and e.get("task_id") in L.req:
                     b = L.barriers.get((e.get("task_id"), e.get("route")))
